@@ -63,28 +63,26 @@ BadRuns(r, ref) ==
   IF ~RefDefined(ref) THEN <<>>
   ELSE BadRunsM(r, ref, SelectSeq([i \in 1..Len(r.runs) |-> i], LAMBDA i : ~RunOK(r.prog, ref, r.runs[i])), VRun(r.prog, VInit, Fuel))
 
-(* ---- record walk.  `bad` keeps at most PerSig entries per distinct signature (so a frequent known cause cannot
-        crowd out a rare one), `cnt` counts all of them ---- *)
+(* ---- record walk.  acc.bad keeps at most PerSig entries per distinct signature (so a frequent known cause cannot crowd
+        out a rare one), acc.cnt counts all of them.  One accumulator variable, updated by ONE pure expression: TLC caches
+        operator arguments only inside expression evaluation, not across the conjuncts of an action. ---- *)
 CONSTANT PerSig
-VARIABLES l, bad, cnt, undef
+VARIABLES l, acc
 Obs == ndJsonDeserialize("obs.ndjson")
-Init == l = 1 /\ bad = <<>> /\ cnt = <<>> /\ undef = 0
+Init == l = 1 /\ acc = [bad |-> <<>>, cnt |-> <<>>, undef |-> 0]
 CountOf(c, sig) == LET hit == SelectSeq(c, LAMBDA e : e.sig = sig) IN IF hit = <<>> THEN 0 ELSE hit[1].n
 Bump(c, sig) == IF CountOf(c, sig) = 0 THEN Append(c, [sig |-> sig, n |-> 1])
                 ELSE [j \in 1..Len(c) |-> IF c[j].sig = sig THEN [c[j] EXCEPT !.n = @ + 1] ELSE c[j]]
+AddOne(a, e, k, id) == [a EXCEPT !.bad = IF CountOf(a.cnt, e.sig) < PerSig
+                                          THEN Append(@, [k |-> k, id |-> id, run |-> e.run, sig |-> e.sig, ref |-> e.ref]) ELSE @,
+                                 !.cnt = Bump(@, e.sig)]
 RECURSIVE AddAll(_, _, _, _, _)
-AddAll(b, c, es, i, k) ==           \* returns <<bad, cnt>>
-  IF i > Len(es) THEN <<b, c>>
-  ELSE LET e == es[i] IN
-       AddAll(IF CountOf(c, e.sig) < PerSig THEN Append(b, [k |-> k, id |-> Obs[k].id, run |-> e.run, sig |-> e.sig, ref |-> e.ref]) ELSE b,
-              Bump(c, e.sig), es, i + 1, k)
-Judge3(res, ref) == bad' = res[1] /\ cnt' = res[2] /\ undef' = undef + (IF RefDefined(ref) THEN 0 ELSE 1)
-Judge2(es, ref) == IF es = <<>> THEN bad' = bad /\ cnt' = cnt /\ undef' = undef + (IF RefDefined(ref) THEN 0 ELSE 1)
-                   ELSE Judge3(AddAll(bad, cnt, es, 1, l), ref)
-Judge1(ref) == Judge2(BadRuns(Obs[l], ref), ref)
-Next == l <= Len(Obs) /\ l' = l + 1 /\ Judge1(RefObs(Obs[l].prog))
+AddAll(a, es, i, k, id) == IF i > Len(es) THEN a ELSE AddAll(AddOne(a, es[i], k, id), es, i + 1, k, id)
+Judge2(a, es, ref, k, id) == IF ~RefDefined(ref) THEN [a EXCEPT !.undef = @ + 1] ELSE IF es = <<>> THEN a ELSE AddAll(a, es, 1, k, id)
+Judge1(a, r, ref, k) == Judge2(a, BadRuns(r, ref), ref, k, r.id)
+Next == l <= Len(Obs) /\ l' = l + 1 /\ acc' = Judge1(acc, Obs[l], RefObs(Obs[l].prog), l)
 Done == l = Len(Obs) + 1 =>
-          /\ ndJsonSerialize("bad.ndjson", bad)
-          /\ ndJsonSerialize("stats.ndjson", <<[ref_undefined |-> undef, records |-> Len(Obs), counts |-> cnt]>>)
+          /\ ndJsonSerialize("bad.ndjson", acc.bad)
+          /\ ndJsonSerialize("stats.ndjson", <<[ref_undefined |-> acc.undef, records |-> Len(Obs), counts |-> acc.cnt]>>)
 Consumed == TLCGet("stats").diameter - 1 = Len(Obs)
 =============================================================================
